@@ -107,7 +107,8 @@ class Node:
             raise RuntimeError("injection refused: %s" % (r,))
         q0 = len(o.queue) if hasattr(o, "queue") else 0
         cfg = dict(addr=o.node_address, lvl=o.multicast_level, role=self.role, allowMc=bool(o.allow_multicast),
-                   relay=bool(o.multicast_relay), retSys=bool(o.ret_sys_msg), parent=bool(getattr(o, "allow_children", True)))
+                   relay=bool(o.multicast_relay), retSys=bool(o.ret_sys_msg), parent=bool(getattr(o, "allow_children", True)),
+                   dhcp=sorted([int(a), int(b)] for a, b in getattr(o, "dhcp_dict", {}).items()) if self.role == "master" else [])
         self.air.log.clear()
         t0 = s.now
         s.deadline = t0 + 3_000_000_000
